@@ -7,6 +7,7 @@ git -C /repo diff --quiet || { echo "/repo has local changes; refusing"; exit 2;
 git -C /repo apply "$D/patch.diff" || exit 2
 cd /verif && ./check "$PROP" --tier "$TIER" > "$D/detect.$PROP.log" 2>&1; RC=$?
 git -C /repo checkout -- .
-git -C /repo status --short | grep -v '^??' | head -3
+git -C /repo status --short | grep -v "^??" | head -3
+/venv/bin/python /verif/tools/regen.py > /dev/null 2>&1
 echo "exit=$RC" >> "$D/detect.$PROP.log"
 echo "$ID $PROP exit=$RC: $(grep -m1 VIOLATION "$D/detect.$PROP.log")"
